@@ -23,6 +23,9 @@ func main() {
 	r := ev.Parse("model_checking")
 	switch os.Args[1] {
 	case "C01", "C05", "C10":
+		if ph := os.Getenv("VERIF_PHASE"); os.Args[1] == "C01" && (ph == "conc" || ph == "race") {
+			runC01Conc(r)
+		}
 		runHistories(r)
 	case "C08":
 		runC08(r)
@@ -455,10 +458,6 @@ func runHistories(r *ev.Run) {
 	r.Set("depth", depth)
 	r.Set("genesis_variants", len(variants))
 	r.Alias("traces_validated_against_impl", "transitions")
-	if prop == "C01" && chain.MapOrderControlled {
-		// The children run the map-order phase; their results are merged into this run.
-		r.Fork(ev.Workers())
-	}
 	switch prop {
 	case "C01":
 		r.Set("rule", "breadth-first search over block histories (one letter = one block: a transaction list, a vote pattern, a proposer, evidence); every history is executed from genesis on a bundle of replicas of the real ABCI multiplexer + all real applications: proposer (PrepareProposal + cached results), validator (ProcessProposal executes), plain replay, validator that first processed a different proposal, validator with CheckTx/queries injected between all ABCI calls, on-disk replica closed and reopened before every block; badger and pathbadger; oracle: identical state root, per-transaction code/data/gas, validator updates as a set, and acceptance of the honest proposal Genesis variants with a compute runtime served by all nodes add: warm-up to the first executor committee, runtime rounds (correctly signed executor commitments of all workers / the scheduler only / with a dissenting worker / with failure votes / with backup votes; emitting staking transfer, withdraw, add-escrow, reclaim, update-runtime and malformed runtime messages; processing the incoming message queue with right and wrong hash), SubmitMsg, RegisterRuntime updates, runtime node registrations. Timeline phase: N-block histories with one letter at every chosen offset and empty blocks (or, with a runtime, finalized rounds) elsewhere, oracle evaluated on every block.")
@@ -471,6 +470,15 @@ func runHistories(r *ev.Run) {
 	if prop != "C01" {
 		r.Assume("Go map iteration order is not controlled by this check (C01 controls it)")
 	}
-	r.Assume("replicas of one bundle run sequentially in one goroutine; interleavings of concurrent queries / mempool checks with block execution at the lock level are not explored (they are injected between ABCI calls only)")
+	if prop == "C01" {
+		r.Assume("BFS / timeline / map-order phases: replicas of one bundle run sequentially in one goroutine with foreign calls injected between ABCI calls; lock-level interleavings are explored by the concurrency phase (conc_* keys)")
+	} else {
+		r.Assume("replicas of one bundle run sequentially in one goroutine; interleavings of concurrent queries / mempool checks with block execution at the lock level are not explored (they are injected between ABCI calls only)")
+	}
+	if prop == "C01" && chain.MapOrderControlled {
+		// The children run the map-order phase; their results are merged into this run
+		// (Fork does not return in the parent: it merges and finishes).
+		r.Fork(ev.Workers())
+	}
 	r.Finish()
 }
